@@ -7,13 +7,13 @@ from harness import common, codecio, schemaio
 from harness.common import Stream, hexb
 
 PID = "C20"
-LEAN_MODULES = ["Astm.Proofs.C20", "Astm.State.C20"]
+LEAN_MODULES = ["Astm.Proofs.C20", "Astm.State.C20", "Astm.Surface.C20"]
 THEOREMS = [
     "Astm.C20.no_shared_mutable_defaults", "Astm.C20.mutation_leaves_other_records_unchanged",
     "Astm.C20.construct_is_pure_and_isolated", "Astm.C20.step_preserves_independence",
     "Astm.C20.history_keeps_independence", "Astm.C20.fresh_record_independent_of_history",
     "Astm.C20.records_isolated_after_any_history", "Astm.C20.shared_default_leaks", "Astm.C20.example_list_surgery", "Astm.C20.checked_step_preserves_independence",
-    "Astm.C20.anchored_code_keeps_no_other_state",
+    "Astm.C20.anchored_code_keeps_no_other_state", "Astm.C20.anchored_code_keeps_its_signatures",
 ]
 RULE = ("for every record class of every schema that has component or repeated fields (and a sample of the others): "
         "seeded histories of construct / set a component sub-value / set a sub-value of the i-th occurrence / append an "
